@@ -225,6 +225,7 @@ func (w *Worker) runItem(it workItem, q *queue) {
 	w.steps = 0
 	w.depth = 0
 	w.viols = nil
+	w.clock = 1000
 	w.st = jobStats{}
 	w.newWork = nil
 	w.obs = nil
